@@ -62,16 +62,18 @@ func VerifC14Immutable() {
 		keepsResources := true
 		switch op {
 		case 0:
-			prof := []string{cur.Services["k1"].Profiles[0], "*", "zz"}[vrtChoice("profile", 3)]
+			prof := []string{before.Services["k1"].Profiles[0], "*", "zz"}[vrtChoice("profile", 3)]
 			q, err = cur.WithProfiles([]string{prof})
 		case 1:
-			names := [][]string{{"d1"}, {"k1"}, {}}[vrtChoice("names", 3)]
+			names := [][]string{{"d1"}, {"k1"}, {}, {"d1", "d2"}, {"d2", "d1"}, {"d1", "k1"}}[vrtChoice("names", 6)]
 			q, err = cur.WithServicesEnabled(names...)
 		case 2:
-			q = cur.WithServicesDisabled([]string{"k2", "zz", "k1"}[vrtChoice("name", 3)])
+			// one or two names, in both orders along the dependency chain k1 -> k2 -> k3
+			names := [][]string{{"k2"}, {"zz"}, {"k1"}, {"k2", "k1"}, {"k1", "k2"}, {"k3", "k2"}, {"k3", "k1"}, {"k3", "k2", "k1"}}[vrtChoice("names", 8)]
+			q = cur.WithServicesDisabled(names...)
 		case 3:
 			opt := vrtChoice("deps", 3)
-			names := []string{[]string{"k1", "k2"}[vrtChoice("sel", 2)]}
+			names := [][]string{{"k1"}, {"k2"}, {"k3"}, {"k2", "k1"}, {"k3", "k1"}}[vrtChoice("sel", 5)]
 			switch opt {
 			case 0:
 				q, err = cur.WithSelectedServices(names)
@@ -101,7 +103,7 @@ func VerifC14Immutable() {
 				return s, nil
 			})
 		case 8:
-			names := [][]string{nil, {"k1"}, {"k2"}}[vrtChoice("names", 3)]
+			names := [][]string{nil, {"k1"}, {"k2"}, {"k3", "k1"}}[vrtChoice("names", 4)]
 			opt := []DependencyOption{IncludeDependencies, IgnoreDependencies, IncludeDependents}[vrtChoice("deps", 3)]
 			err = cur.ForEachService(names, func(name string, s *ServiceConfig) error {
 				// the visitor owns what it gets: mutate every kind of nested state
